@@ -55,4 +55,37 @@ class C11(HndBase):
         return cases
 
 
+from mgrbase import MgrBase, protocol_scenario
+
+
+class C11Mgr(MgrBase):
+    """manager side of C11: the Have broadcast to the established connections happens exactly when a piece becomes owned
+    (or is completed again) -- completions after a choke or after the other end-game holder left included; the bitfield
+    given to a new connection is the owned set"""
+    id = "C11"
+    coq_header = ("From Rdest Require Import Base Consts Wire Manager Corr.Mgr.\nOpen Scope N_scope.\n"
+                  "Definition codes := codes11m.\n")
+    rule = ""
+
+    def corpus(self):
+        # completion after the peer choked us (piece back to Missing meanwhile); completion after the other end-game
+        # holder was killed
+        a = ["add 1", "init 1", "bf 1 11", "unchoke 1", "choke 1", "done 1"]
+        b = ["add 1", "init 1", "bf 1 11", "add 2", "init 2", "bf 2 11", "unchoke 1", "unchoke 2", "done 1", "kill 1", "done 2"]
+        return [self.mk("prod", 2, 4, 7, a, "announce-mgr"), self.mk("prod", 2, 4, 7, b, "announce-mgr")]
+
+    def gen(self, rng, tier):
+        k = {"quick": 200, "thorough": 5000, "search": 1200}.get(tier, 200)
+        w = {"unchoke": 5, "choke": 4, "have": 1, "done": 9, "cancel": 1, "kill": 2, "join": 2, "bf": 1, "nint": 1, "tresp": 2}
+        cases = []
+        for _ in range(k):
+            n = rng.choice([1, 2, 2, 3, 4])
+            pl = 4
+            total = pl * n - rng.randrange(0, pl)
+            ops = protocol_scenario(rng, rng.choice([2, 2, 3]), n, rng.choice([10, 16, 24]), weights=w)
+            cases.append(self.mk("prod", n, pl, total, ops, "announce-mgr"))
+        return cases
+
+
 PROP = C11()
+PROP.parts = [PROP, C11Mgr()]
